@@ -432,6 +432,13 @@ func (k *skel) stmt(s ast.Stmt) {
 	}
 }
 
+func splitLocks(s string) []string {
+	if s == "" {
+		return nil
+	}
+	return strings.Split(s, ",")
+}
+
 func mangle(key string) string {
 	r := strings.NewReplacer(".", "_", "[", "_", "]", "_")
 	return "skel_" + r.Replace(key)
@@ -953,10 +960,10 @@ func main() {
 	}
 	// dedupe
 	seen := map[string]bool{}
-	fmt.Fprintf(&b, "/-- (struct, field, kind R|W|M:<method>, function, locks held, phase: \"\"|go|ctor) -/\ndef accesses : List (String × String × String × String × String × String) := [\n")
+	fmt.Fprintf(&b, "/-- (struct, field, kind R|W|M:<method>, function, locks held (mutex:R|W), phase: \"\"|go|ctor) -/\ndef accesses : List (String × String × String × String × List String × String) := [\n")
 	var al []string
 	for _, a := range acc {
-		s := fmt.Sprintf("  (%s, %s, %s, %s, %s, %s)", leanStr(a.strct), leanStr(a.field), leanStr(a.kind), leanStr(a.fn), leanStr(a.locks), leanStr(a.phase))
+		s := fmt.Sprintf("  (%s, %s, %s, %s, %s, %s)", leanStr(a.strct), leanStr(a.field), leanStr(a.kind), leanStr(a.fn), leanList(splitLocks(a.locks)), leanStr(a.phase))
 		if !seen[s] {
 			seen[s] = true
 			al = append(al, s)
@@ -964,18 +971,37 @@ func main() {
 	}
 	sort.Strings(al)
 	fmt.Fprintf(&b, "%s\n]\n\n", strings.Join(al, ",\n"))
-	fmt.Fprintf(&b, "/-- calls of a method of the same struct: (caller, callee, locks held at the call, inside a goroutine) -/\ndef selfCalls : List (String × String × String × Bool) := [\n")
+	fmt.Fprintf(&b, "/-- calls of a method of the same struct: (caller, callee, locks held at the call, inside a goroutine) -/\ndef selfCalls : List (String × String × List String × Bool) := [\n")
 	seen = map[string]bool{}
 	var cl []string
 	for _, c := range calls {
-		s := fmt.Sprintf("  (%s, %s, %s, %v)", leanStr(c.caller), leanStr(c.callee), leanStr(c.locks), c.inGo)
+		s := fmt.Sprintf("  (%s, %s, %s, %v)", leanStr(c.caller), leanStr(c.callee), leanList(splitLocks(c.locks)), c.inGo)
 		if !seen[s] {
 			seen[s] = true
 			cl = append(cl, s)
 		}
 	}
 	sort.Strings(cl)
-	fmt.Fprintf(&b, "%s\n]\n\nend GoSup.%s\n", strings.Join(cl, ",\n"), *ns)
+	fmt.Fprintf(&b, "%s\n]\n\n", strings.Join(cl, ",\n"))
+	// exported methods (callable from outside the package, with no lock held) and the mutex names
+	var exp []string
+	mset := map[string]bool{}
+	for _, f := range fns {
+		if f.recv != "" && ast.IsExported(f.name) {
+			exp = append(exp, f.key())
+		}
+	}
+	for _, a := range acc {
+		for _, l := range splitLocks(a.locks) {
+			mset[strings.SplitN(l, ":", 2)[0]] = true
+		}
+	}
+	var ms []string
+	for m := range mset {
+		ms = append(ms, m)
+	}
+	sort.Strings(ms)
+	fmt.Fprintf(&b, "def exportedMethods : List String :=\n  %s\n\ndef mutexes : List String :=\n  %s\n\nend GoSup.%s\n", leanList(exp), leanList(ms), *ns)
 	write(*out, "Accesses.lean", b.String())
 }
 
